@@ -26,7 +26,7 @@ DEV_BREAKS = {"RestoreOnlyMainParser": "C14_15_Clean", "RestoreWithoutInstrument
               "StoreKeptOnFailure": "C14_15_Clean", "NoCleanupOnModelProcessorFailure": "C15_NoRetention",
               "NoRestoreForPrimitiveModel": "C14_15_Clean"}
 OWN_FLAVOURS = ("frozen", "setattr", "getattribute")
-PLAIN_FLAVOURS = ("plain", "slots")
+PLAIN_FLAVOURS = ("plain", "slots", "classattr")
 B_TYPE = ("parse", "init", "objproc")     # failures of a nested load after/without its own increment
 
 
@@ -109,6 +109,8 @@ def assign_flavours(sc, rng, allow_own=True):
     sc = dict(sc)
     sc["flav"] = flav
     sc["own"] = [c for c in sc["user"] if flav[c] in OWN_FLAVOURS]
+    # user code may abort the load with something that is not an Exception
+    sc["exc"] = rng.choice(U.EXC_KINDS) if rng.random() < 0.5 else "Exception"
     return sc
 
 
@@ -149,6 +151,18 @@ def _in_fragment(sc):
              and ("Model" in sc["user"] or ("Pkg" in sc["user"] and any(
                  o["cls"] == "Pkg" and o["parent"] == 1 for o in fl["objs"]))))
     return crisp
+
+
+def stratified(cases, rng, per=1):
+    """Quick-tier sample of the enumerated scenarios: `per` from every (nesting, user-class set,
+    global repository, failure step) stratum instead of a plain random subset."""
+    groups = {}
+    for s in cases:
+        groups.setdefault((s["id"].split("/")[0], tuple(s["user"]), s["grepo"], s["fault"]["step"]), []).append(s)
+    out = []
+    for key in sorted(groups):
+        out += rng.sample(groups[key], min(per, len(groups[key])))
+    return out
 
 
 def _tree(rng, nmax):
@@ -214,13 +228,15 @@ def _prim_scenario(rng, n, pid):
 
 def random_scenario(rng, n, pid):
     """Generation only: shapes, nesting, flavours and one failure point."""
-    nest = rng.choice(["one", "two", "two", "chain", "fan", "diamond", "inner", "swallow"])
+    nest = rng.choice(["one", "two", "two", "chain", "fan", "diamond", "inner", "swallow", "gstr"])
     if rng.random() < 0.04:
         return _prim_scenario(rng, n, pid)
-    nfiles = {"one": 1, "two": 2, "chain": 3, "fan": 3, "diamond": 3, "inner": 2, "swallow": 2}[nest]
+    nfiles = {"one": 1, "two": 2, "chain": 3, "fan": 3, "diamond": 3, "inner": 2, "swallow": 2, "gstr": 2}[nest]
     imports = {"one": [[]], "two": [[2], rng.choice([[], [1]])], "chain": [[2], [3], []],
                "fan": [[2, 3], [], []], "diamond": [[2, 3], [3], rng.choice([[], [1]])],
-               "inner": [[], []], "swallow": [[], []]}[nest]
+               "inner": [[], []], "swallow": [[], []],
+               # main model loaded from a string, file 2 found by the provider's file pattern
+               "gstr": [[2], []]}[nest]
     files = []
     for f in range(1, nfiles + 1):
         kind = "main" if f == 1 else ("inner" if nest in ("inner", "swallow") else "import")
@@ -251,7 +267,8 @@ def random_scenario(rng, n, pid):
         r["swallow"] = nest == "swallow"
     files.append(dict(kind="follow", prim=False, objs=[dict(cls="Model", parent=0), dict(cls="Pkg", parent=1),
                                            dict(cls="DefA", parent=2), dict(cls="Use", parent=1)],
-                      refs=[dict(owner=4, tf=nfiles + 1, to=3, post=0, inner=0, swallow=False)], imports=[]))
+                      refs=[dict(owner=4, tf=nfiles + 1, to=3, post=0, inner=0, swallow=False)],
+                      imports=[nfiles + 1] if nest == "gstr" else []))   # (it matches the file pattern itself)
     if pid == "C15":
         user = rng.choice(USER_SETS + [(), ()])
         grepo = rng.random() < 0.4
@@ -260,6 +277,7 @@ def random_scenario(rng, n, pid):
         grepo = False
     procs = [p for p in ("Model", "Pkg", "DefA", "DefB", "Use") if rng.random() < 0.7]
     sc = dict(id=f"r{n}", nest=nest, user=list(user), grepo=grepo, procs=procs, files=files,
+              prov="glob" if nest == "gstr" else "uri",
               fault=dict(step="none", f=0, k=0), follow=nfiles + 1)
     fts = _faults(sc)
     if nest == "swallow" and rng.random() < 0.7:
@@ -333,7 +351,7 @@ def known(rep, fids, case=None):
 
 
 def short(sc):
-    return dict(id=sc["id"], user=sc["user"], flav=sc.get("flav"), grepo=sc["grepo"], fault=sc["fault"],
+    return dict(id=sc["id"], user=sc["user"], flav=sc.get("flav"), exc=sc.get("exc"), grepo=sc["grepo"], fault=sc["fault"],
                 files=[dict(kind=f["kind"], objs=[o["cls"] + str(o["parent"]) for o in f["objs"]],
                             nrefs=len(f["refs"]), imports=f["imports"]) for f in sc["files"]])
 
